@@ -144,46 +144,47 @@ class Bad(Exception):
     def __init__(self, reason, fields=None): self.reason, self.fields = reason, fields
 
 # ------------------------------------------------------------ reference loader (documented rules)
-def ref_load(member, model, tree, data, strict, problems, out, extras, top=True):
+def ref_load(member, model, tree, data, strict, problems, out, extras, top=True, trail=()):
     """fills out[field] = loaded value; problems: list of (reason, detail); extras: unknown keys (nested like the input)"""
     if tree["kind"] == "dict":
         if not isinstance(data, collections.abc.Mapping):
-            problems.append(("type", None)); return
+            problems.append(("type", None, trail, data)); return
         for key, ch in tree["ch"].items():
             if key not in data:
                 if isinstance(ch, tuple):
-                    if required(model, ch[1]): problems.append(("missing", key))
-                else: problems.append(("missing", key))      # a nested node is always required (implemented rule; the docs are silent)
+                    if required(model, ch[1]): problems.append(("missing", key, trail, data))
+                else: problems.append(("missing", key, trail, data))      # a nested node is always required (implemented rule; the docs are silent)
                 continue
             if isinstance(ch, tuple):
                 r = run(child_load, model, data[key])
                 if r[0]: out[ch[1]] = r[1]
-                else: problems.append(("child", ch[1]))
+                else: problems.append(("child", ch[1], trail + (key,), data[key]))
             else:
                 sub = {}
-                ref_load(member, model, ch, data[key], strict, problems, out, sub, False)
+                ref_load(member, model, ch, data[key], strict, problems, out, sub, False, trail + (key,))
                 extras[key] = sub
         unknown = [k for k in data if k not in tree["ch"]]
         if unknown and member["extra_in"] == "forbid":
-            problems.append(("extra", frozenset(unknown)))
+            problems.append(("extra", frozenset(unknown), trail, data))
         for k in unknown: extras[k] = data[k]
     else:
         if strict and (isinstance(data, collections.abc.Mapping) or type(data) is str):
-            problems.append(("type", None)); return
-        if not isinstance(data, collections.abc.Sequence) or isinstance(data, (str, bytes)):
-            problems.append(("type", None)); return
+            problems.append(("type", None, trail, data)); return
+        if not isinstance(data, collections.abc.Sequence):        # lax: a str is a sequence of characters
+            problems.append(("type", None, trail, data)); return
         need = max(tree["ch"]) + 1
         if len(data) < need:
-            problems.append(("missing_items", need)); return
+            problems.append(("missing_items", need, trail, data))
         if len(data) > need and member["extra_in"] == "forbid":
-            problems.append(("extra_items", need))
+            problems.append(("extra_items", need, trail, data))
         for key, ch in tree["ch"].items():
+            if key >= len(data): continue
             if isinstance(ch, tuple):
                 r = run(child_load, model, data[key])
                 if r[0]: out[ch[1]] = r[1]
-                else: problems.append(("child", ch[1]))
+                else: problems.append(("child", ch[1], trail + (key,), data[key]))
             else:
-                ref_load(member, model, ch, data[key], strict, problems, out, {}, False)
+                ref_load(member, model, ch, data[key], strict, problems, out, {}, False, trail + (key,))
 
 def prune(x):
     """nested extras without empty sub-dicts (the docs only fix which unknown keys are delivered and under which names)"""
@@ -236,6 +237,116 @@ def c03_load(member, model, tree, loaders, mk_data, user_bug=False):
                 if o[0] != "ok": return False
                 if not same_obj(member, o[2], expected_object(member, model, out, prune(extras) if member["extra_in"] != "kwargs" else extras)):
                     return False
+    return True
+
+REASON_CLASS = {"type": ("TypeLoadError", "ExcludedTypeLoadError"), "missing": ("NoRequiredFieldsLoadError",), "extra": ("ExtraFieldsLoadError",),
+                "missing_items": ("NoRequiredItemsLoadError",), "extra_items": ("ExtraItemsLoadError",), "child": ("TypeLoadError",)}
+
+def expected_errors(problems):
+    """[(trail incl. the child's own relative trail, allowed classes, offending input)] - one per node for missing keys"""
+    out, seen = [], set()
+    for reason, detail, trail, inp in problems:
+        if reason == "missing":
+            if ("missing", trail) in seen: continue
+            seen.add(("missing", trail))
+        rel = stub_rel_trail(inp) if reason == "child" and type(inp) is int else ()
+        out.append((trail + rel, REASON_CLASS[reason], inp, rel))
+    return out
+
+def err_matches(t, e, exp):
+    return any(t == et and type(e).__name__ in ecls and (getattr(e, "input_value", None) is einp or getattr(e, "input_value", None) == einp)
+               for et, ecls, einp, _ in exp)
+
+def c05_model(member, model, tree, loaders, mk_data):
+    """ALL: every independent problem exactly once with its exact trail; FIRST: exactly one of them, full trail; DISABLE: no
+    trail from the model (only what the child attached itself)"""
+    for strict in (True, False):
+        problems, out, extras = [], {}, {}
+        ref_load(member, model, tree, mk_data(), strict, problems, out, extras)
+        if not problems: continue
+        exp = expected_errors(problems)
+        o = outcome(loaders[(strict, DebugTrail.ALL)], mk_data())
+        if o[0] != "load_error": return False
+        ls = leaves(o[2])
+        if len(ls) != len(exp): return False
+        for t, e in ls:
+            if not err_matches(t, e, exp): return False
+        for et, ecls, einp, _ in exp:
+            if sum(1 for t, e in ls if t == et and type(e).__name__ in ecls) != 1: return False
+        o = outcome(loaders[(strict, DebugTrail.FIRST)], mk_data())
+        if o[0] != "load_error": return False
+        ls = leaves(o[2])
+        if len(ls) != 1 or not err_matches(ls[0][0], ls[0][1], exp): return False
+        o = outcome(loaders[(strict, DebugTrail.DISABLE)], mk_data())
+        if o[0] != "load_error": return False
+        ls = leaves(o[2])
+        if len(ls) != 1: return False
+        if not any(ls[0][0] == rel and type(ls[0][1]).__name__ in ecls for et, ecls, einp, rel in exp): return False
+    return True
+
+def contains_bug(x):
+    """does the built datum contain a stub code that makes the user supplied child raise a non-LoadError?"""
+    if isinstance(x, dict): return any(contains_bug(v) for v in x.values())
+    if isinstance(x, (list, tuple)): return any(contains_bug(v) for v in x)
+    return type(x) is int and x == -2
+
+def c04_model(member, model, tree, loaders, mk_data, bug):
+    bug = contains_bug(mk_data())
+    for strict in (True, False):
+        for dt in DT_MODES:
+            o = outcome(loaders[(strict, dt)], mk_data())
+            if o[0] == "other_exc" and not bug: return False
+            if o[0] == "load_error" and not only_load_errors(o[2]): return False
+    return True
+
+def c06_model(member, model, tree, loaders, mk_data, bug):
+    bug = contains_bug(mk_data())
+    for strict in (True, False):
+        outs = [outcome(loaders[(strict, dt)], mk_data()) for dt in DT_MODES]
+        if bug:
+            if any(o[0] == "ok" for o in outs) and not all(o[0] == "ok" for o in outs): return False
+            continue
+        if any(o[0] == "other_exc" for o in outs): continue
+        if len({o[0] for o in outs}) != 1: return False
+        if outs[0][0] == "ok":
+            exp = outs[2][2]
+            for o in outs[:2]:
+                if not same_obj(member, o[2], exp): return False
+        else:
+            all_sigs = [leaf_sig(e) for _, e in leaves(outs[2][2])]
+            for o in outs[:2]:
+                ls = leaves(o[2])
+                if len(ls) != 1 or leaf_sig(ls[0][1]) not in all_sigs: return False
+    return True
+
+def c20_model(member, model, tree, loaders, mk_data):
+    for strict in (True, False):
+        for dt in DT_MODES:
+            data = mk_data(); snap = mk_data()          # an independently built equal copy serves as the deep snapshot
+            f = loaders[(strict, dt)]
+            o1 = outcome(f, data)
+            if not same(data, snap): return False
+            o2 = outcome(f, data)
+            if not same(data, snap): return False
+            if o1[0] != o2[0]: return False
+            if o1[0] == "ok":
+                if not same_obj(member, o1[2], o2[2]): return False
+                if o1[2] is o2[2]: return False
+                i1, i2, ia = mutable_ids(o1[2]), mutable_ids(o2[2]), mutable_ids(data)
+                if (i1 & i2) or (i1 & ia) or (i2 & ia): return False
+    return True
+
+def c20_dump(member, model, tree, dumpers, mk):
+    for dt in DT_MODES:
+        obj = mk(); snap = mk()                        # independently built equal copy = deep snapshot
+        r1 = run(dumpers[dt], obj)
+        if obj != snap: return dbg("dump: object changed (1)")
+        r2 = run(dumpers[dt], obj)
+        if obj != snap or r1[0] != r2[0]: return dbg("dump: object changed (2)")
+        if r1[0]:
+            if r1[1] != r2[1]: return dbg("dump: results differ")
+            i1, i2, ia = mutable_ids(r1[1]), mutable_ids(r2[1]), mutable_ids(obj)
+            if (i1 & i2) or (i1 & ia) or (i2 & ia): return dbg("dump: shared container %r %r %r" % (i1, i2, ia))
     return True
 
 # ------------------------------------------------------------ reference dumper
@@ -343,7 +454,7 @@ def build_data(member, tree, p0, p1, p2, v0, v1, v2, x0, x1, xn, nk, rk, trunc):
             # an unknown key that looks like a field: the original name of a renamed / skipped / trimmed field
             k = "a" if "a" not in tree["ch"] else ("b_" if "b_" not in tree["ch"] else ("c_d" if "c_d" not in tree["ch"] else "yy"))
             if member["extra_in"] == "kwargs": k = "yy"      # documented: an unknown key colliding with a field name is a TypeError
-            data[k] = v0
+            data[k] = 3
         if rk == 1: return None
         if rk == 2: return list(data.values())
         if rk == 3: return "str"
